@@ -3,6 +3,7 @@
 #include <string.h>
 #include <stdlib.h>
 #include <assert.h>
+char __ir2c_dummy_vt[128];
 int __exc_pending; char* __exc_obj; char* __exc_type;
 int __verif_throw_seen;
 char* __ir2c_memcpy(char* d, char* s, uint64_t n) { for (uint64_t i = 0; i < n; i++) d[i] = s[i]; return d; }
@@ -48,3 +49,18 @@ uint64_t ext_strlen(char* s) { uint64_t n = 0; while (s[n]) n++; return n; }
 char* ext_memchr(char* s, uint32_t c, uint64_t n) { for (uint64_t i = 0; i < n; i++) if ((uint8_t)s[i] == (uint8_t)c) return s + i; return 0; }
 uint32_t ext_bcmp(char* a, char* b, uint64_t n) { for (uint64_t i = 0; i < n; i++) if (a[i] != b[i]) return 1; return 0; }
 uint32_t ext_memcmp(char* a, char* b, uint64_t n) { for (uint64_t i = 0; i < n; i++) if (a[i] != b[i]) return (uint8_t)a[i] < (uint8_t)b[i] ? -1 : 1; return 0; }
+/* environment of bpp::Exception's constructor (stack trace decoration of the message): no frames are reported */
+uint32_t ext_backtrace(char* buffer, uint32_t size) { return 0; }
+char* ext_backtrace_symbols(char* buffer, uint32_t size) { return 0; }
+char* ext___cxa_demangle(char* name, char* out, char* len, char* status) { if (status) *(int*)status = -1; return 0; }
+void ext_free(char* p) { free(p); }
+/* std::istringstream used by TextTools::fromString<T> (number conversion through iostream): the stream is opaque, extraction yields an arbitrary value of the type */
+int nondet_int(void); double nondet_double(void);
+void ext__ZNSt7__cxx1119basic_istringstreamIcSt11char_traitsIcESaIcEEC1ERKNS_12basic_stringIcS2_S3_EESt13_Ios_Openmode(char* self, char* str, uint32_t mode) {
+  /* the only part of the stream object the inlined destructor looks at: the buffer string of its stringbuf (libstdc++ x86_64 layout: string at +88, its local buffer at +104) is an empty short string */
+  *(char**)(self + 88) = self + 104; *(uint64_t*)(self + 96) = 0; self[104] = 0; }
+void ext__ZNSt7__cxx1119basic_istringstreamIcSt11char_traitsIcESaIcEED1Ev(char* self) { }
+char* ext__ZNSirsERi(char* self, char* out) { *(int*)out = nondet_int(); return self; }
+char* ext__ZNSi10_M_extractIdEERSiRT_(char* self, char* out) { *(double*)out = nondet_double(); return self; }
+void ext__ZNSt6localeD1Ev(char* self) { }
+void ext__ZNSt8ios_baseD2Ev(char* self) { }
